@@ -8,7 +8,7 @@ SPEC = {
                   "otherwise valid block with recomputed commitment (block validation must refuse at the nonce/epoch checks).",
     "level_note": "txs that a reorg did revert are excluded by construction; the block path demands refusal by the replay checks, not by a later derived-field mismatch",
     "rule": "case = one block checked or one replay attempt; distinct_nontrivial = distinct (tx hash, timing class) replay attempts",
-    "jobs": [Job("chain", "verifsim", "^TestVerifC06$", shards=(8, 16), timeout=(900, 3600))],
+    "jobs": [Job("chain", "verifsim", "^TestVerifC06$", shards=(8, 16), timeout=(900, 7200))],
     "floors": {"replay_class:right-after-inclusion": 50, "replay_class:later-block": 50, "replay_class:after-epoch-change": 50,
                "replay_class:after-reorg-not-reverting": 10, "replay_class:after-epoch-change+account-cleared": 1, "history_txs": 1000,
                "replay_block_path": 500, "foreign_epoch_class:future-epoch": 200, "foreign_epoch_class:past-epoch": 50},
